@@ -42,6 +42,9 @@ def check(ctx: Ctx) -> None:
         raise MachineryError("Grid: no record")
     torch.manual_seed(ctx.seed)
     dclasses = [EuropeanOption, LookbackOption, AmericanBinaryOption, EuropeanBinaryOption, VarianceSwap]
+    recs = sorted(recs, key=lambda r: (r["k"], r["f"], r["dt"]))
+    _s = BrownianStock(dt=0.25, dtype=torch.float64)
+    reused = (_s, LookbackOption(_s, maturity=1.0))
     for n, r in enumerate(recs):
         dt_q, M_q, T = fr(r["dt"]), fr(r["maturity"]), r["steps"]
         k, f = r["k"], fr(r["f"])
@@ -101,6 +104,21 @@ def check(ctx: Ctx) -> None:
                         e = float((Tn - 1 - (i % Tn)) * dt_q)
                         if one.shape != (2, 1) or not bool(((one - e).abs() <= tol).all()):
                             ctx.violation("grid:ttm-step", f"time_to_maturity({i}) is not (T-1-i)*dt", {"dt": r["dt"], "T": Tn, "i": i, "observed": one.flatten().tolist(), "expected": e})
+        # the same derivative object re-used with a new step size and maturity (same T, different dt for consecutive
+        # cases): the grid must follow the underlier's CURRENT dt
+        if T <= 80:
+            stock_r, d_r = reused
+            stock_r.dt = dt_f
+            d_r.maturity = float(M_q)
+            d_r.simulate(n_paths=1)
+            Tn = stock_r.spot.size(1)
+            ttm_all = d_r.time_to_maturity()
+            tol = 4 * torch.finfo(torch.float64).eps * max(Tn - 1, 1) * dt_f
+            exp = torch.tensor([float((Tn - 1 - i) * dt_q) for i in range(Tn)], dtype=torch.float64)
+            ctx.count(n=1)
+            if ttm_all.shape != (1, Tn) or not bool(((ttm_all - exp).abs() <= tol).all()) or not bool(((d_r.time_to_maturity(0) - exp[0]).abs() <= tol).all()):
+                ctx.violation("grid:ttm-reused-object", "time_to_maturity on a re-simulated derivative does not follow the underlier's current dt",
+                              {"dt": r["dt"], "T": Tn, "observed_first": ttm_all.flatten()[0].item(), "expected_first": exp[0].item()})
         # forward-start index: start = (k + f) dt  ->  floor(start / dt) = k
         for sname, s_f in spellings.items():
             fs = EuropeanForwardStartOption(BrownianStock(dt=dt_f), maturity=2 * s_f + dt_f, start=s_f)
